@@ -6,7 +6,7 @@
    the regenerated summary of the constructor the predicate's DSL path is wired to. *)
 From Coq Require Import List ZArith Bool String Lia.
 From RG.Base Require Import Outcome.
-From RG.Filters Require Import FilterIR FilterAlgebra Predicates.
+From RG.Filters Require Import FilterIR FilterAlgebra Predicates FilterEval.
 From RGW Require Import Gen_FilterTables Gen_FilterPreds Inst_C02.
 Import ListNotations.
 Local Open Scope string_scope.
@@ -36,6 +36,24 @@ Theorem C02_eval_iff_fact_list_refuted : forall (E : Type) (fact : E -> bool) no
   exists l, fact_holds E fact (CapList l) /\ pred_eval E fact false node_fact ci (CapList l) = false.
 Proof. exact (fun E fact node_fact ci Hl Hop => eval_iff_fact_list_refuted E fact false node_fact ci Hl Hop eq_refl). Qed.
 Print Assumptions C02_eval_iff_fact_list_refuted.
+
+(* ---------------------------------------------------------------- the whole filter: eval_filter over the regenerated dispatch *)
+Definition eval_filter_gen (E : Type) := eval_filter E gen_load_ctor gen_ctors gen_combinators.
+
+Theorem C02_eval_filter_iff_fact : forall (E : Type) (F : facts E) env op x args ctor rest ci e,
+  assoc op gen_load_ctor = Some (ctor :: rest) -> assoc ctor gen_ctors = Some ci -> ci_operand ci <> OpNone ->
+  env x = CapExpr e ->
+  eval_filter_gen E F env (LAtom op (VStr x) args) = Ok (f_expr E F op args e).
+Proof. exact (fun E => eval_filter_iff_fact E gen_load_ctor gen_ctors gen_combinators). Qed.
+Print Assumptions C02_eval_filter_iff_fact.
+
+Theorem C02_eval_filter_iff_fact_every_element : forall (E : Type) (F : facts E) env op x args ctor rest ci l,
+  assoc op gen_load_ctor = Some (ctor :: rest) -> assoc ctor gen_ctors = Some ci -> ci_operand ci <> OpNone ->
+  ci_list ci = true -> env x = CapList l ->
+  exists b, eval_filter_gen E F env (LAtom op (VStr x) args) = Ok b /\
+            (b = true <-> Forall (fun e => f_expr E F op args e = true) l).
+Proof. exact (fun E => eval_filter_iff_fact_list E gen_load_ctor gen_ctors gen_combinators). Qed.
+Print Assumptions C02_eval_filter_iff_fact_every_element.
 
 (* which documented predicates lift over `$*xs` today (the others are the known finding C02-no-list-support) *)
 Theorem C02_lifted_predicates :
@@ -120,6 +138,16 @@ Example c02_assignable_lifts :
   | None => False
   end.
 Proof. vm_compute. repeat split. Qed.
+
+(* m["x"].Type.AssignableTo("int") && !m["ys"].Const through the regenerated dispatch, on concrete facts *)
+Example c02_eval_filter_demo :
+  let F := {| f_expr := fun op _ (e : nat) => if String.eqb op "FilterVarConstOp" then Nat.even e else Nat.leb e 5;
+              f_nil := fun _ _ => false; f_node := fun _ _ _ => false; f_ctx := fun _ _ _ => Panic PExplicit;
+              f_int := fun _ _ _ => Panic PExplicit; f_str := fun _ _ => Panic PExplicit |} in
+  let env := fun v => if String.eqb v "x" then CapExpr 3%nat else CapList [2; 4; 7]%nat in
+  option_map (eval_filter_gen nat F env)
+    (compile gen_tables (DBinary "LAND" (DCall "Type.AssignableTo" "x" [DStr "int"]) (DUnary "NOT" (DSel "Const" "ys")))) = Some (Ok true).
+Proof. vm_compute. reflexivity. Qed.
 
 Example c02_has_pointers_does_not_lift :
   match ctor_of_path "Type.HasPointers" with
